@@ -20,7 +20,7 @@ def pad(n):
 class Case:
     """one random world on two hosts (h1 = the acting daemon's host, h2 = remote)"""
 
-    def __init__(self, env, rng, big_space=True, rich=False):
+    def __init__(self, env, rng, big_space=True, rich=False, multi=False, churn=False):
         """rich: a healthy, well-replicated archive (4-5 mostly-archive nodes, most copies healthy and on disk, a few
         released) so that deletions, transfers and rule processing actually proceed"""
         self.env = env
@@ -44,17 +44,36 @@ class Case:
                             address="addr" if routed else None, username="user" if routed else None,
                             avail_kib=None, min_kib=0)
             self.nodes.append(n)
+            if churn and i == 0:
+                # the group whose membership will churn: two spare disks on the same host
+                for k in range(2):
+                    self.nodes.append(self.w.node(f"n{i + 1}{'bc'[k]}", g, host=host, stype=n.storage_type, active=False,
+                                                  address="addr" if routed else None, username="user" if routed else None,
+                                                  avail_kib=None, min_kib=0))
+            elif multi and rng.random() < 0.6:
+                # further nodes of the same group: elsewhere, inactive (a spare disk) or - a misconfiguration the group I/O
+                # must reject - active on the same host
+                for k in range(rng.randint(1, 2)):
+                    kind = rng.random()
+                    h2_, act = (host, False) if kind < 0.45 else ("h2" if host == "h1" else "h1", rng.random() < 0.8) if kind < 0.8 else (host, True)
+                    self.nodes.append(self.w.node(f"n{i + 1}{'bc'[k]}", g, host=h2_, stype=n.storage_type, active=act,
+                                                  address="addr" if routed else None, username="user" if routed else None,
+                                                  avail_kib=None, min_kib=0))
         self.acq = self.w.acq("acq")
         self.files = []
-        for i in range(rng.randint(1, 3)):
+        for i in range(rng.randint(3, 4) if churn else rng.randint(1, 3)):
             content = bytes(rng.getrandbits(8) for _ in range(rng.choice([0, 1, 7, 100])))
             name = rng.choice([f"f{i}.dat", f"sub/f{i}.dat", f"a/b/f{i}.dat"])
             self.files.append(self.w.file(self.acq, name, content))
         for f in self.files:
             for n in self.nodes:
                 r = rng.random()
+                if churn and n.group_id == self.groups[0].id:
+                    continue            # the churning group starts empty: requests into it are pending
                 if rich and r < 0.8:
-                    self.w.copy(f, n, has=rng.choice("YYYYYYYM"), wants=rng.choice("YYYNNM"), on_disk=self.w.contents[f.id], ready=True)
+                    has = rng.choice("YYYYYYYMXN")
+                    self.w.copy(f, n, has=has, wants=rng.choice("YYYNNM") if has != "N" else "N",
+                                on_disk=None if has == "N" else self.w.contents[f.id], ready=True)
                 elif rich:
                     pass
                 elif r < 0.55:
@@ -79,6 +98,9 @@ class Case:
             g = rng.choice(self.groups)
             if g.id != src.group_id:
                 self.w.req(f, src, g, completed=rng.random() < 0.1, cancelled=rng.random() < 0.1)
+        if churn:
+            for c in db.ArchiveFileCopy.select().where(db.ArchiveFileCopy.has_file == "Y").limit(1):
+                self.w.req(db.ArchiveFile.get(id=c.file_id), db.StorageNode.get(id=c.node_id), self.groups[0])
         for _ in range(rng.randint(0, 2)):
             a = rng.choice(self.nodes)
             g = rng.choice(self.groups)
